@@ -128,6 +128,9 @@ func verifConsistency(name string) primitive.ConsistencyLevel {
 
 func verifSerialConsistency(name string) *primitive.ConsistencyLevel {
 	c := primitive.ConsistencyLevel(nd.Uint16(name))
+	if nd.Frozen() {
+		c = primitive.ConsistencyLevelSerial
+	}
 	nd.Assume(nd.In(uint64(c), uint64(primitive.ConsistencyLevelSerial), uint64(primitive.ConsistencyLevelLocalSerial)))
 	return &c
 }
